@@ -66,7 +66,7 @@ func fuzzWorker(dir string) {
 		for {
 			time.Sleep(200 * time.Millisecond)
 			wmu.Lock()
-			if curID >= 0 && cpuNow()-curStart > 25*time.Second {
+			if curID >= 0 && cpuNow()-curStart > 15*time.Second {
 				fmt.Fprintf(os.Stdout, "{\"id\":%d,\"cpu\":true}\n", curID)
 				os.Exit(3)
 			}
@@ -225,11 +225,11 @@ func c12Raw(r *rng.R) []byte {
 	case 2:
 		// long lines: a long literal (DFA construction is quadratic in its
 		// length, so moderate sizes), or a 1 MB comment / garbage line
-		switch r.Intn(12) {
+		switch r.Intn(150) {
 		case 0:
 			return []byte("@lexer\n// " + strings.Repeat("c", 1<<20) + "\nA = 'a'\n")
 		case 1:
-			return []byte("@lexer\nA = " + strings.Repeat("'a' ", 1<<18) + "\n")
+			return []byte("@lexer\nA = " + strings.Repeat("'a' ", 1<<12) + "\n")
 		}
 		n := 1 << uint(6+r.Intn(5))
 		return []byte("@lexer\nA = '" + strings.Repeat("x", n) + "'\n")
@@ -429,6 +429,12 @@ func checkC12(c *Ctx) error {
 		inputs = append(inputs, input{map[string][]byte{"adv.lox": []byte(a)}, "catalogue"})
 		inputs = append(inputs, input{map[string][]byte{"adv.lox": []byte(c12Mutate(r, a))}, "catalogue-mutated"})
 	}
+	// interleave the kinds so that every worker gets a similar load
+	for i, j := range r.Perm(len(inputs)) {
+		if i < j {
+			inputs[i], inputs[j] = inputs[j], inputs[i]
+		}
+	}
 	c.Logf("%d inputs prepared", len(inputs))
 
 	// ---- in-process volume ---------------------------------------------------
@@ -567,6 +573,7 @@ func checkC12(c *Ctx) error {
 	for _, v := range c12GoVariants() {
 		cli = append(cli, cliCase{v, "go-package-variant", ""})
 	}
+	cli = append(cli, cliCase{map[string]string{"p.go": tinyGo, "g.lox": "@lexer\nA = 'a'\n\n@parser\n@start s = A\n"}, "outside-any-go-module", ""})
 	// valid specifications with a complete package must succeed completely
 	for i := 0; i < c.N(6, 40); i++ {
 		pc := d.draw(r, drawOpts{errPct: 10})
@@ -603,7 +610,15 @@ func checkC12(c *Ctx) error {
 			}
 			os.WriteFile(p, []byte("STALE sentinel, not Go\n"), 0o644)
 		}
-		v := runLoxLimited(c.Env, b.Dir, 60, name)
+		cwd := b.Dir
+		if cc.origin == "outside-any-go-module" {
+			// same files, but in a directory that belongs to no module
+			cwd = filepath.Join(c.Env.Scratch, "nomodule")
+			os.MkdirAll(cwd, 0o755)
+			os.Rename(dir, filepath.Join(cwd, name))
+			dir = filepath.Join(cwd, name)
+		}
+		v := runLoxLimited(c.Env, cwd, 60, name)
 		c.Ev.Eval(1)
 		c.Ev.Count("cli_runs", 1)
 		c.Ev.Count("cli_origin_"+strings.Fields(cc.origin)[0], 1)
